@@ -8,7 +8,7 @@ Require Import ZArith List Lia Bool.
 Import ListNotations.
 Local Open Scope Z_scope.
 From EphVerif Require Import lib.Bytes model.Sha256Model model.ChaCha20Model model.ShamirModel model.ContentModel
-  proofs.ChaCha20Proofs proofs.ShamirProofs proofs.ContentProofs.
+  proofs.ChaCha20Proofs proofs.ShamirProofs proofs.ContentProofs proofs.ContentRoundtrip.
 
 (* the bytes held for a chunk are the ChaCha20 encryption of the payload under the fresh key, counter = first four id bytes *)
 Theorem c11_held_is_chacha : forall id data key nonce t n rnd held m,
@@ -36,6 +36,21 @@ Theorem c11_replica_roundtrip : forall id data key nonce t n rnd held m,
   receive m held = Val (Some data).
 Proof. exact receive_genuine. Qed.
 Print Assumptions c11_replica_roundtrip.
+
+(* ... and with C10's reconstruction theorem (every threshold) the hypothesis is discharged: for every payload, id, 32-byte key,
+   nonce, shard configuration and random coefficients, the local lookup and the replica import return exactly the payload *)
+Theorem c11_local_roundtrip_full : forall id data key nonce t n rnd held m,
+  store id data key nonce t n rnd = Val (held, m) -> eff_total t n <= 255 ->
+  length key = 32%nat -> Forall byte_ok key -> Forall byte_ok rnd ->
+  fetch id held (m_nonce m) (m_shards m) (m_threshold m) = Val (Some data).
+Proof. exact fetch_roundtrip_full. Qed.
+Print Assumptions c11_local_roundtrip_full.
+Theorem c11_replica_roundtrip_full : forall id data key nonce t n rnd held m,
+  store id data key nonce t n rnd = Val (held, m) -> eff_total t n <= 255 ->
+  length key = 32%nat -> Forall byte_ok key -> Forall byte_ok rnd ->
+  receive m held = Val (Some data).
+Proof. exact receive_genuine_full. Qed.
+Print Assumptions c11_replica_roundtrip_full.
 
 (* tampering: whatever manifest and bytes arrive, what is accepted is the decryption under the key the manifest's shares
    reconstruct AND hashes to the manifest's content hash; a decryption with another hash is refused *)
